@@ -28,8 +28,8 @@ def obligations(tier):
     obs.append(S.SOb('C09.score[G_en,n=3,tags=1:[0,2,0]]', g, 3, S.one_tag(3, g['T'], [0, 2, 0]), pruning=1, penalty='sym'))
     obs.append(S.SOb('C09.score[G7,n=3,tags=1,penalty=sym]', S.G7(False), 3, S.one_tag(3, 3), pruning=1, penalty='sym'))
     if not q:
-        obs.append(S.SOb('C09.score[G4,n=3,tags=1:[0,1,0],nbest=3]', g4, 3, S.one_tag(3, 2, [0, 1, 0]), pruning=1, penalty='sym', nbest=3, max_seconds=900))
-        obs.append(S.SOb('C09.score[G3c,n=2,tags=2,penalty=sym]', S.G3(True), 2, pruning=2, penalty='sym', max_seconds=900))
+        obs.append(S.SOb('C09.score[G4,n=3,tags=1:[0,1,0],nbest=3]', g4, 3, S.one_tag(3, 2, [0, 1, 0]), pruning=1, penalty='sym', nbest=3, max_seconds=450))
+        obs.append(S.SOb('C09.score[G3c,n=2,tags=2,penalty=sym]', S.G3(True), 2, pruning=2, penalty='sym', max_seconds=450))
     return obs
 
 
